@@ -183,7 +183,7 @@ func (c *Clock) After(d time.Duration) <-chan time.Time {
 // lateWake: the sleeper's context has ended, so a correct sleeper returns through
 // ctx.Done() at once. A sleeper that ignores its context would block for real; so that
 // such code shows up as a (huge) overshoot instead of hanging the harness, virtual time
-// jumps to the wake-up tick after a short real delay.
+// jumps to the wake-up tick once the program has made no progress for 3 s of real time.
 func (c *Clock) lateWake(ch chan time.Time, target int64) {
 	c.At(target, func() {
 		select {
@@ -191,11 +191,24 @@ func (c *Clock) lateWake(ch chan time.Time, target int64) {
 		default:
 		}
 	})
-	time.AfterFunc(50*time.Millisecond, func() {
-		if Active() == c {
+	// only when the program makes no progress at all (no context poll) for 3 s of real
+	// time: a running evaluation polls thousands of times per millisecond, so this cannot
+	// fire under a correct sleeper, however loaded the machine is
+	var watch func(last int64)
+	watch = func(last int64) {
+		time.AfterFunc(3*time.Second, func() {
+			if Active() != c {
+				return
+			}
+			now := c.Ticks()
+			if now != last {
+				watch(now)
+				return
+			}
 			c.AdvanceTo(target)
-		}
-	})
+		})
+	}
+	watch(c.Ticks())
 }
 
 // ---- contexts ------------------------------------------------------------------
